@@ -206,20 +206,24 @@ class StoreBackendMixin(object):
                 print("Persisting in %s" % item_path)
 
             def write_func(to_write, dest_filename):
-                with self._open_item(dest_filename, "wb") as f:
-                    try:
+                try:
+                    with self._open_item(dest_filename, "wb") as f:
                         numpy_pickle.dump(to_write, f, compress=self.compress)
-                    except PicklingError as e:
-                        # TODO(1.5) turn into error
-                        warnings.warn(
-                            "Unable to cache to disk: failed to pickle "
-                            "output. In version 1.5 this will raise an "
-                            f"exception. Exception: {e}.",
-                            FutureWarning,
-                        )
-                        # Do not publish the partial pickle under the final
-                        # name.
-                        raise _UnpicklableOutput() from e
+                except PicklingError as e:
+                    # TODO(1.5) turn into error
+                    warnings.warn(
+                        "Unable to cache to disk: failed to pickle "
+                        "output. In version 1.5 this will raise an "
+                        f"exception. Exception: {e}.",
+                        FutureWarning,
+                    )
+                    # Do not publish the partial pickle under the final name,
+                    # and do not leave it behind either.
+                    try:
+                        os.unlink(dest_filename)
+                    except OSError:
+                        pass
+                    raise _UnpicklableOutput() from e
 
             self._concurrency_safe_write(item, filename, write_func)
         except _UnpicklableOutput:
